@@ -189,6 +189,38 @@ def h_agg_float(k0: int, k1: int, k2: int, k3: int, j0: int, j1: int, j2: int, j
     return H.ok()
 
 
+def _same_name_body(keys, mask, win, names):
+    a = [None if m else w for m, w in zip(mask, [1, 2, 4, 8])]
+    b = [16, 32, 64, 128]
+    cols = [Vector(list(keys), name='g'), Vector(a, name=names[0]), Vector(b, name=names[1])]
+    t = Table(cols)
+    f = t.window if win else t.aggregate
+    out = f(over=t.cols()[0], sum_over=[t.cols()[1], t.cols()[2]], max_over=[t.cols()[2], t.cols()[1]])
+    rows = H.rows_of(out)
+    grp = groups_of([(k,) for k in keys])
+    for i in range(len(keys) if win else len(grp)):
+        k = (keys[i],) if win else grp[i][0]
+        idx = [j for j in range(len(keys)) if keys[j] == k[0]]
+        want = (k[0], agg_expected('sum', [a[j] for j in idx]), agg_expected('sum', [b[j] for j in idx]), agg_expected('max', [b[j] for j in idx]), agg_expected('max', [a[j] for j in idx]))
+        if not H.same_list(rows[i], want): return H.fail('%s with two value columns named %r: row %r, expected %r (keys %r)' % ('window' if win else 'aggregate', names, rows[i], want, keys))
+    if len(set(map(repr, out.column_names()))) != len(out.column_names()): return H.fail('output names repeat: %r' % (out.column_names(),))
+    return True
+
+
+def h_same_name(k0: int, k1: int, k2: int, k3: int, m0: bool, m1: bool, m2: bool, m3: bool, nm: int) -> bool:
+    """
+    pre: H.rgs_ok([k0, k1, k2, k3]) and 0 <= nm <= 2
+    post: _
+    """
+    H.reset()
+    if H.skip(locals()): return True
+    keys = [H.among([0, 1, 2, 3], k) for k in (k0, k1, k2, k3)]
+    mask = [True if m else False for m in (m0, m1, m2, m3)]
+    names = H.pick([('v', 'v'), (None, None), ('v', 'w')], nm)
+    if not H.concrete(_same_name_body, keys, mask, H.cfg('win'), names): return False
+    return H.ok()
+
+
 def h_reduce_agree(v0: Optional[int], v1: Optional[int], v2: Optional[int], n: int) -> bool:
     """
     pre: 1 <= n <= 3
@@ -273,6 +305,9 @@ def obligations(tier, win=False, prefix='agg'):
         add('h_agg_float', n, 'mean+stdev,n=%d' % n, fns=['mean', 'stdev'], witness=W)
         add('h_agg_float', n, 'all6,n=%d,floats' % n, fns=['sum', 'mean', 'min', 'max', 'count', 'stdev'], witness=[0.5, -2.0, 4.0, 0.25], apply=True)
     add('h_agg_float', 3, 'mean+stdev,K=2,n=3', K=2, nones=False, fns=['mean', 'stdev'], witness=W)
+    obs.append(dict(name='%s[two value columns, same / missing names]' % prefix, fn='h_same_name', config={'win': win}, budget=120 if q else 300,
+                    bounds='4 rows, every key pattern x None mask; two different value columns carrying the same name, no name, or different names, each aggregated twice',
+                    smoke=[[0, 1, 0, 1, False, True, False, False, 0]]))
     if not win:
         obs.append(dict(name='reduce-agree[int]', fn='h_reduce_agree', config={}, budget=100 if q else 300,
                         bounds='1..3 unbounded symbolic Optional[int] with at least one non-None: Vector.sum/min/max == single-group aggregate', smoke=[[1, None, 3, 3]]))
